@@ -54,7 +54,7 @@ JsonLeaves(t) == IF Types[t].lazy THEN <<F("share", "share")>> ELSE HexFields(Ty
 CountKind(t, ks) == Cardinality({i \in 1..Len(JsonLeaves(t)) : JsonLeaves(t)[i].kind \in ks})
 JsonMutations(t) ==
   {M("none", "", ""), M("trunc", "", ""), M("trunc_all", "", ""), M("extend", "", "")}
-  \cup {ML("hex", i - 1, c) : i \in 1..Len(JsonLeaves(t)), c \in {"nonhex", "odd", "short", "long", "empty", "upper"}}
+  \cup {ML("hex", i - 1, c) : i \in 1..Len(JsonLeaves(t)), c \in {"nonhex", "odd", "short", "long", "empty", "upper", "utf8"}}
   \cup (IF t = "SecretKeyShare" THEN {}
         ELSE {ML("point", i - 1, c) : i \in 1..CountKind(t, PointKinds \cup {"share"}), c \in PointClasses})
   \cup {ML("scalar", i - 1, c) : i \in 1..CountKind(t, {"scalar"}), c \in ScalarClasses}
